@@ -194,8 +194,8 @@ static void do_dump(int h, const char *callname)
 		for (i = 0; i < m; i++) { if (i) jraw(","); jsparse(rowcnt[i], rowind + rowbeg[i], rowval + rowbeg[i]); }
 		jraw("]");
 		if (range) J_qarr("range", range, m); else { jkey("range"); jraw("[]"); }
-		if (rhs) J_qarr("rr_rhs", rhs, m);
-		if (sense) J_chars("rr_sense", sense, m);
+		if (rhs) J_qarr("rr_rhs", rhs, m); else { jkey("rr_rhs"); jraw("[]"); }
+		if (sense) J_chars("rr_sense", sense, m); else { jkey("rr_sense"); jraw("[]"); }
 		if (names) J_sarr("rnames", names, m); else { jkey("rnames"); jraw("[]"); }
 	  }
 	  if (rowcnt) mpq_QSfree(rowcnt); if (rowbeg) mpq_QSfree(rowbeg); if (rowind) mpq_QSfree(rowind);
@@ -222,7 +222,7 @@ static void do_dump(int h, const char *callname)
 		jkey("cols"); jraw("[");
 		for (i = 0; i < n; i++) { if (i) jraw(","); jsparse(cc[i], ci + cb[i], cv + cb[i]); }
 		jraw("]");
-		if (obj) J_qarr("c_obj", obj, n); if (lo) J_qarr("c_lo", lo, n); if (up) J_qarr("c_up", up, n);
+		if (obj) J_qarr("c_obj", obj, n); else { jkey("c_obj"); jraw("[]"); } if (lo) J_qarr("c_lo", lo, n); else { jkey("c_lo"); jraw("[]"); } if (up) J_qarr("c_up", up, n); else { jkey("c_up"); jraw("[]"); }
 		if (names) J_sarr("cnames", names, n); else { jkey("cnames"); jraw("[]"); }
 	  }
 	  if (cc) mpq_QSfree(cc); if (cb) mpq_QSfree(cb); if (ci) mpq_QSfree(ci);
@@ -231,10 +231,10 @@ static void do_dump(int h, const char *callname)
 	}
 	{ /* names via get_rownames/get_colnames and the index lookups */
 	  char **rn = calloc(m > 0 ? m : 1, sizeof(char*)), **cn = calloc(n > 0 ? n : 1, sizeof(char*)); int *ri = malloc((m > 0 ? m : 1) * sizeof(int)), *ci = malloc((n > 0 ? n : 1) * sizeof(int));
-	  rv = mpq_QSget_rownames(p, rn); J_int("rv_rownames", rv); if (!rv) J_sarr("rnames2", rn, m);
+	  rv = mpq_QSget_rownames(p, rn); J_int("rv_rownames", rv); if (!rv) J_sarr("rnames2", rn, m); else { jkey("rnames2"); jraw("[]"); jkey("ridx"); jraw("[]"); }
 	  if (!rv) { for (i = 0; i < m; i++) { ri[i] = -7; if (rn[i]) { int r2 = mpq_QSget_row_index(p, rn[i], &ri[i]); if (r2) ri[i] = -9; } } J_iarr("ridx", ri, m); }
 	  for (i = 0; i < m; i++) if (rn[i]) mpq_QSfree(rn[i]);
-	  rv = mpq_QSget_colnames(p, cn); J_int("rv_colnames", rv); if (!rv) J_sarr("cnames2", cn, n);
+	  rv = mpq_QSget_colnames(p, cn); J_int("rv_colnames", rv); if (!rv) J_sarr("cnames2", cn, n); else { jkey("cnames2"); jraw("[]"); jkey("cidx"); jraw("[]"); }
 	  if (!rv) { for (i = 0; i < n; i++) { ci[i] = -7; if (cn[i]) { int r2 = mpq_QSget_column_index(p, cn[i], &ci[i]); if (r2) ci[i] = -9; } } J_iarr("cidx", ci, n); }
 	  for (i = 0; i < n; i++) if (cn[i]) mpq_QSfree(cn[i]);
 	  free(rn); free(cn); free(ri); free(ci);
